@@ -1,15 +1,20 @@
 import Drand
+open Drand.Driver.AggD
 open Drand.Driver.CacheD
 open Drand.Driver.CbStoreD
 open Drand.Driver.ChainD
 open Drand.Driver.CodecD
 open Drand.Driver.CrashD
+open Drand.Driver.DispatchD
 open Drand.Driver.DkgD
+open Drand.Driver.DkgRunD
+open Drand.Driver.HandlerD
 open Drand.Driver.HashD
 open Drand.Driver.RouteD
 open Drand.Driver.SecrecyD
 open Drand.Driver.StoreD
 open Drand.Driver.StreamD
+open Drand.Driver.SyncD
 open Drand.Driver.TimeD
 
 def isWs (c : Char) : Bool := c == ' ' || c == '\t' || c == '\n' || c == '\r'
@@ -55,10 +60,17 @@ def main (args : List String) : IO UInt32 := do
   | ["chain", backend] =>
     let (cap, st) := chainInit backend
     loopState stdin stdout (chainStep cap) st; return 0
+  | ["sync"] => loopState stdin stdout syncStep ({} : SyncSt); return 0
   | ["hash"] => loopPure stdin stdout hashStep; return 0
   | ["secrecy"] => loopPure stdin stdout secrecyStep; return 0
   | ["codec"] => loopPure stdin stdout codecStep; return 0
   | "crash" :: _ => loopState stdin stdout crashStep ({} : CrashSt); return 0
+  | "dispatch" :: _ => loopState stdin stdout dispatchStep dispatchInit; return 0
+  | ["agg"] => loopState stdin stdout aggStep AggState.empty; return 0
+  | ["dkgrun"] => loopPure stdin stdout dkgrunStep; return 0
+  | ["handler"] => loopState stdin stdout handlerStep ({ cfg := ⟨1, 0, 0, Gen.Handler.bnpSkipAhead⟩ } : Sim); return 0
+  | ["handler", "asis"] => loopState stdin stdout handlerStep ({ cfg := ⟨1, 0, 0, false⟩ } : Sim); return 0
+  | ["handler", "fixed"] => loopState stdin stdout handlerStep ({ cfg := ⟨1, 0, 0, true⟩ } : Sim); return 0
   | ["store", backend] =>
     match storeInit backend with
     | some st => loopState stdin stdout storeStep st; return 0
